@@ -145,6 +145,9 @@ def build_result(I, settings, oc):
     with contextlib.redirect_stdout(io.StringIO()):
         r = I["OR"](raw.copy(), bnds, list(COEF_IDS[key]), 2.0, None, T, model, np.ones_like(T), resid, None,
                     float(np.mean(resid ** 2)), float(np.sum((obs - obs.mean()) ** 2)), True, "", 1, 0.0, settings)
+    # the class keeps obs only as model - resid, which cancels catastrophically when a scored value is astronomically large
+    # (finding C12-F2): the oracle's usage-range clause reads the usage that was given
+    r._verif_obs = obs
     return r
 
 
@@ -204,7 +207,7 @@ def oracle(I, r, obs=None, f_unc=None, tc=None, coeffs=None):
         if vals[k] is not None and vals[k] < 0:
             fails.append(("smoothing_nonneg", dict(field=k, value=vals[k])))
     # base load within the observed usage range
-    o = np.asarray(r.obs if obs is None else obs, dtype=float)
+    o = np.asarray((getattr(r, "_verif_obs", None) if getattr(r, "_verif_obs", None) is not None else r.obs) if obs is None else obs, dtype=float)
     if not (float(np.min(o)) - 1e-9 <= ic <= float(np.max(o)) + 1e-9):
         fails.append(("base_load_in_observed_range", dict(intercept=ic, obs_min=float(np.min(o)), obs_max=float(np.max(o)))))
     fu = r.f_unc if f_unc is None else f_unc
